@@ -834,6 +834,21 @@ def check_accumulating_loops(repo, rep, uni):
                                 model.scope_locals(fi)) or '').endswith(
                                 'limit_memory_usage') and
                             name in model.names_loaded(c)]
+                if not measured:
+                    # an object of a class of the repository whose growing
+                    # method applies the quota itself
+                    ci = _repo_class_of_local(repo, fi, name)
+                    meth = at.func.attr if isinstance(
+                        at, ast.Call) and isinstance(
+                        at.func, ast.Attribute) else None
+                    m = ci.methods.get(meth) if ci is not None and meth \
+                        else None
+                    if m is not None and any(
+                            (repo.resolve(m.module, c.func,
+                                          model.scope_locals(m)) or ''
+                             ).endswith('limit_memory_usage')
+                            for c in model.calls_in(m.node)):
+                        measured = [at]
                 rep.ob('R08j', '%s/%s' % (fi.key, name), bool(measured),
                        '%s grows `%s` once per element of a collection '
                        'argument without applying utils.limit_memory_usage '
@@ -844,6 +859,25 @@ def check_accumulating_loops(repo, rep, uni):
                        construct=model.norm(at).split('\n')[0][:100])
     rep.floor('accumulating loops over collection arguments', n, 3)
     return n
+
+
+def _repo_class_of_local(repo, fi, name):
+    for st in ast.walk(fi.node):
+        if isinstance(st, ast.Assign) and any(
+                isinstance(t, ast.Name) and t.id == name
+                for t in st.targets):
+            v = st.value
+            cands = [v]
+            if isinstance(v, ast.IfExp):
+                cands = [v.body, v.orelse]
+            for c in cands:
+                if isinstance(c, ast.Call):
+                    d = repo.resolve(fi.module, c.func,
+                                     model.scope_locals(fi))
+                    tgt = repo.lookup(d) if d else None
+                    if isinstance(tgt, model.ClassInfo):
+                        return tgt
+    return None
 
 
 def _bound_as_element(fi, name):
